@@ -188,6 +188,9 @@ fn spell(side: &Side, holder: usize, import: &ImportRef) -> String {
         },
         | Spelling::ViaSymlink => {
             let through = match import.slot {
+                // two links lead to a.zy: `l.zy` and the all-digit name `7` (a quoted path made of
+                // digits is still a path, not a REPL input number)
+                | SLOT_A if holder % 2 == 1 => Some("7".to_string()),
                 | SLOT_A => Some("l.zy".to_string()),
                 | SLOT_E => Some("dl/e.zy".to_string()),
                 | _ => None,
